@@ -934,7 +934,7 @@ def cross_check_reader(files, nb, nd, bp, dp, feat):
 # ----------------------------------------------------------------------------------------------- (b) synthesised files
 def gen_synth_files(rng, files, feat, tier):
     out = []
-    n = 60 if tier == "quick" else 600
+    n = 60 if tier == "quick" else 400
     for i in range(n):
         pool = [rand_desc_b(rng) for _ in range(12)]
         nm = "sb%d" % i
@@ -991,7 +991,7 @@ def gen_synth_files(rng, files, feat, tier):
 # ----------------------------------------------------------------------------------------------- (c) histories
 def gen_histories(rng, files, feat, tier):
     out = []
-    nh = 150 if tier == "quick" else 2500
+    nh = 150 if tier == "quick" else 900
     for h in range(nh):
         # a pool of small overlapping files
         poolB = [rand_desc_b(rng) for _ in range(rng.choice([4, 8, 16]))]
